@@ -41,6 +41,70 @@ class UserError(ResolverError):
     """subclass raised by generated resolvers (isinstance semantics of the except clause)"""
 
 
+# a family of ResolverError subclasses with their own constructor signatures: the library must report
+# each as a field error (null + one error with path and location), whatever its constructor looks like
+class Unauthorized(ResolverError):
+    """zero-argument constructor"""
+    def __init__(self):
+        super().__init__("unauthorized", extensions={"code": 401})
+        self.realm = "admin"
+
+
+class NotFound(ResolverError):
+    """two positional arguments, an extra attribute"""
+    def __init__(self, kind, ident):
+        super().__init__("%s %s not found" % (kind, ident))
+        self.kind, self.ident = kind, ident
+
+
+class QuotaExceeded(ResolverError):
+    """keyword-only argument, extensions computed from it"""
+    def __init__(self, *, limit):
+        super().__init__("quota %d exceeded" % limit, extensions={"limit": limit, "retry": None})
+        self.limit = limit
+
+
+SHARED_ERROR = UserError("shared failure", extensions={"shared": True})   # one instance, raised repeatedly
+SHARED_ERROR._c04_user = True
+
+
+def make_error(entry):
+    """the exception a world entry ["err", msg, ext, variant?] raises (msg / ext are what the model expects)"""
+    variant = entry[3] if len(entry) > 3 else None
+    if variant is None:
+        cls = UserError if int(entry[1][-1]) % 2 else ResolverError
+        err = cls(entry[1], extensions=entry[2])
+    elif variant[0] == "unauthorized":
+        err = Unauthorized()
+    elif variant[0] == "notfound":
+        err = NotFound(variant[1], variant[2])
+    elif variant[0] == "quota":
+        err = QuotaExceeded(limit=variant[1])
+    elif variant[0] == "shared":
+        return SHARED_ERROR
+    else:
+        raise AssertionError(variant)
+    err._c04_user = True
+    assert err.message == entry[1] and (err.extensions or None) == (entry[2] or None), entry
+    return err
+
+
+def gen_error_entry(rng):
+    r = rng.random()
+    if r < 0.45:
+        ext = rng.choice([None, {"code": rng.randint(1, 9)}, {"a": [1, "x"], "b": None}])
+        return ["err", "boom%d" % rng.randint(0, 9), ext]
+    if r < 0.58:
+        return ["err", "unauthorized", {"code": 401}, ["unauthorized"]]
+    if r < 0.72:
+        kind, ident = rng.choice(["user", "order"]), rng.randint(1, 99)
+        return ["err", "%s %s not found" % (kind, ident), None, ["notfound", kind, ident]]
+    if r < 0.86:
+        limit = rng.randint(1, 50)
+        return ["err", "quota %d exceeded" % limit, {"limit": limit, "retry": None}, ["quota", limit]]
+    return ["err", "shared failure", {"shared": True}, ["shared"]]
+
+
 class Boom(Exception):
     """the resolver's own unexpected exception"""
 
@@ -740,8 +804,7 @@ class World:
         t = self.tref_of(f.type)
         r = rng.random()
         if r < self.p_error:
-            ext = rng.choice([None, {"code": rng.randint(1, 9)}, {"a": [1, "x"], "b": None}])
-            return ["err", "boom%d" % rng.randint(0, 9), ext]
+            return gen_error_entry(rng)
         if r < self.p_error + 0.05:
             return ["val", None]
         if r < self.p_error + 0.22:
@@ -894,10 +957,7 @@ class World:
         if e[0] == "echoall":
             return dict(args)          # what the resolver received: coerced arguments, in definition order
         if e[0] == "err":
-            cls = UserError if int(e[1][-1]) % 2 else ResolverError
-            err = cls(e[1], extensions=e[2])
-            err._c04_user = True
-            raise err
+            raise make_error(e)
         if e[0] == "exn":
             raise Boom("unexpected")
         # behave as the default resolver on mappings
